@@ -103,6 +103,8 @@ def identical(I, run, a, b, node) -> bool:
     for x, y in ((a, b), (b, a)):
         if isinstance(x, C) and x.v is None and isinstance(y, (Sym, App)) and run.kind_of(y) in ("func", "obj"):
             return False  # a callable / object symbol is some object, never None
+        if isinstance(x, C) and x.v is None and ((isinstance(y, App) and y.op == "hof") or isinstance(y, (Fn, Bound, Lam, Cls, Ref, Tup))):
+            return False  # a function object, class or container is never None
         if isinstance(x, Ref) and isinstance(y, (Sym, App, C, Tup)):
             cx = run.heap.get(x.addr) or (I.base.heap.get(x.addr) if getattr(I, "base", None) is not None else None)
             if isinstance(cx, HObj) and cx.cls == "builtins.object":
@@ -585,6 +587,8 @@ def binop(I, run, op, a: Value, b: Value, node) -> Value:
         except (TypeError, ValueError) as e:
             I.raise_builtin(run, type(e).__name__, node, C(str(e)))
     ka, kb = run.kind_of(a), run.kind_of(b)
+    if name == "+" and _ba_parts(run, a) is not None:
+        return run.alloc(HObj(BYTEARRAY, {"@parts": run.alloc(HList(list(_ba_parts(run, a)) + _ba_piece(I, run, b, node)))}))
     if name == "+":
         # sequences
         if isinstance(a, Tup) and isinstance(b, Tup):
@@ -612,6 +616,15 @@ def binop(I, run, op, a: Value, b: Value, node) -> Value:
         I.raise_builtin(run, "TypeError", node, C("can only concatenate list (not \"tuple\") to list"))
     if name == "*" and (ka in ("str", "bytes")) and kb == "int":
         return App("repeat", (a, b), ka)
+    # neutral elements on integer terms: 0 + x, x + 0, x - 0, x | 0, 1 * x, x * 1, x << 0  (a Horner loop starts from 0)
+    def _int_const(v, n):
+        return isinstance(v, C) and isinstance(v.v, int) and not isinstance(v.v, bool) and v.v == n
+    if ka == "int" and _int_const(b, 0) and name in ("+", "-", "|", "<<", ">>", "^"):
+        return a
+    if kb == "int" and _int_const(a, 0) and name in ("+", "|", "^"):
+        return b
+    if name == "*" and ((ka == "int" and _int_const(b, 1)) or (kb == "int" and _int_const(a, 1))):
+        return a if ka == "int" and _int_const(b, 1) else b
     res = App(name, (a, b), "int" if (ka in ("int", "bool", None) and kb in ("int", "bool", None)) else None)
     simp = simplify_be16(res)
     if simp is not res:
@@ -852,6 +865,10 @@ def call_cmethod(I, run, recv: Value, name: str, args: List[Value], kwargs, node
     # ---- constants
     if isinstance(recv, C) and isinstance(recv.v, (str, bytes)):
         if name == "join" and args:
+            a0 = I.resolve(run, args[0])
+            if isinstance(a0, App) and a0.op == "m:split" and len(a0.args) == 2 and isinstance(a0.args[1], C) and a0.args[1].v:
+                # j.join(x.split(s)) is x.replace(s, j)
+                return App("m:replace", (a0.args[0], a0.args[1], recv), run.kind_of(a0.args[0]) or recv.kind)
             its = list(I.iterate(run, args[0], node))
             kind = "str" if isinstance(recv.v, str) else "bytes"
             if any(isinstance(x, App) and x.op in ("spread",) for x in its):
@@ -1080,6 +1097,9 @@ def _dict_method(I, run, recv, c: HDict, name, args, kwargs, node) -> Value:
     return App("m:" + name, (recv,) + tuple(args))
 
 
+_UNBOUND_TYPES = ("str", "bytes", "dict", "list", "tuple", "set", "bytearray", "int")
+
+
 # ---------------------------------------------------------------- call dispatch
 def call(I, run, fn: Value, args: List[Value], kwargs: Dict[str, Value], node) -> Value:
     cfg = I.cfg
@@ -1112,6 +1132,12 @@ def call(I, run, fn: Value, args: List[Value], kwargs: Dict[str, Value], node) -
         name = fn.name
         if name in cfg.stubs:
             return cfg.stubs[name](I, run, args, kwargs, node)
+        if name == "struct.calcsize" and args and isinstance(I.resolve(run, args[0]), C):
+            import struct as _struct
+            try:
+                return C(_struct.calcsize(I.resolve(run, args[0]).v))
+            except _struct.error:
+                I.raise_builtin(run, "struct.error", node)
         from . import hof
         if name in hof.MAKERS:
             return hof.make(name, args, kwargs)
@@ -1135,6 +1161,12 @@ def call(I, run, fn: Value, args: List[Value], kwargs: Dict[str, Value], node) -
                     f.hi = min(f.hi, 2 ** (8 * ln.v) - 1)
                 return t
             return App("int.from_bytes", tuple(ra), "int")
+        # unbound method of a builtin type called with its receiver first: str.isdecimal(x), dict.get(d, k), list.append(l, v)
+        parts = name.split(".")
+        if len(parts) == 3 and parts[0] == "builtins" and parts[1] in _UNBOUND_TYPES and args and not name == "builtins.int.from_bytes" \
+                and hasattr(getattr(__import__("builtins"), parts[1]), parts[2]) and not parts[2].startswith("__"):
+            recv = I.resolve(run, args[0])
+            return call(I, run, I.getattr(run, recv, parts[2], node), list(args[1:]), kwargs, node)
         if name.startswith("builtins."):
             b = BUILTINS.get(name[9:])
             if b is not None:
@@ -1153,6 +1185,16 @@ def call(I, run, fn: Value, args: List[Value], kwargs: Dict[str, Value], node) -
         if isinstance(recv, App) and recv.op == "hof":
             from . import hof
             return hof.method(I, run, recv, mname, args, kwargs, node)
+        if _ba_parts(run, recv) is not None:
+            return bytearray_method(I, run, recv, mname, args, kwargs, node)
+        if isinstance(recv, Sym) and recv.name.startswith("Lock#") and mname in ("acquire", "release", "__enter__", "__exit__") \
+                and f"Lock.{mname}" not in cfg.stubs:
+            # explicit acquire()/release() open and close the same critical section a `with` statement does
+            if mname in ("acquire", "__enter__"):
+                I.enter_cm(run, recv, node)
+                return TRUE if mname == "acquire" else recv
+            I.exit_cm(run, recv, node)
+            return NONE
         name = f"{I.describe(run, recv)}.{mname}"
         if name in cfg.stubs:
             return cfg.stubs[name](I, run, args, kwargs, node)
@@ -1240,6 +1282,10 @@ def str_method(I, run, recv, name, args, kwargs, node) -> Value:
     if name == "join" and args:
         return App("join", (recv, args[0]), k)
     kind = _method_kind(name, k if k in ("str", "bytes") else "str")
+    if name in ("partition", "rpartition") and len(args) == 1:
+        # (head, sep-or-empty, tail): three strings of the receiver's kind
+        pk = k if k in ("str", "bytes") else "str"
+        return Tup(tuple(App("m:" + name + ".piece", (recv, args[0], C(i)), pk) for i in range(3)))
     res = App("m:" + name, (recv,) + tuple(args), kind)
     if name in ("split", "rsplit"):
         ln = run.fact(App("len", (res,), "int"))
@@ -1275,6 +1321,8 @@ def _b_len(I, run, args, kwargs, node):
         return C(len(v.items))
     if isinstance(v, Ref):
         c = run.cell(v)
+        if _ba_parts(run, v) is not None:
+            return _b_len(I, run, [concat(list(_ba_parts(run, v)), "bytes")], {}, node)
         if isinstance(c, HList):
             return C(len(c.items))
         if isinstance(c, HDict) and not c.open:
@@ -1497,7 +1545,7 @@ def _b_map(I, run, args, kwargs, node):
     f, it = args[0], I.resolve(run, args[1])
     if isinstance(it, (Sym, App)):
         return App("map", (f, it))
-    return run.alloc(HList([call(I, run, f, [x], {}, node) for x in I.iterate(run, it, node)]))
+    return run.alloc(HList([call(I, run, f, [x], {}, node) for x in I.iterate(run, it, node)], oneshot=True))
 
 
 def _b_filter(I, run, args, kwargs, node):
@@ -1509,7 +1557,7 @@ def _b_filter(I, run, args, kwargs, node):
         keep = truth(I, run, x, node) if (isinstance(f, C) and f.v is None) else truth(I, run, call(I, run, f, [x], {}, node), node)
         if keep:
             out.append(x)
-    return run.alloc(HList(out))
+    return run.alloc(HList(out, oneshot=True))
 
 
 def _b_sorted(I, run, args, kwargs, node):
@@ -1657,12 +1705,58 @@ def _b_bytes(I, run, args, kwargs, node):
     if not args:
         return C(b"")
     v = I.resolve(run, args[0])
+    if _ba_parts(run, v) is not None:
+        return concat(list(_ba_parts(run, v)), "bytes")
     if isinstance(v, C):
         try:
             return C(bytes(v.v, *[a.v for a in args[1:]]) if len(args) > 1 else bytes(v.v))
         except Exception as e:
             I.raise_builtin(run, type(e).__name__, node)
     return App("bytes", tuple(args), "bytes")
+
+
+BYTEARRAY = "builtins.bytearray"
+
+
+def _ba_parts(run, ref):
+    c = run.cell(ref) if isinstance(ref, Ref) else None
+    if isinstance(c, HObj) and c.cls == BYTEARRAY:
+        return run.cell(c.fields["@parts"]).items
+    return None
+
+
+def _ba_piece(I, run, v, node):
+    """what `buf += v` / buf.extend(v) appends: the bytes of v (another bytearray is flattened)"""
+    v = I.resolve(run, v)
+    p = _ba_parts(run, v)
+    return list(p) if p is not None else [v]
+
+
+def _b_bytearray(I, run, args, kwargs, node):
+    init = []
+    if args:
+        v = I.resolve(run, args[0])
+        if isinstance(v, C) and isinstance(v.v, int):
+            init = [C(bytes(v.v))]
+        else:
+            init = _ba_piece(I, run, v, node)
+    return run.alloc(HObj(BYTEARRAY, {"@parts": run.alloc(HList(init))}))
+
+
+def bytearray_method(I, run, ref, name, args, kwargs, node):
+    parts = _ba_parts(run, ref)
+    if name == "extend":
+        parts.extend(_ba_piece(I, run, args[0], node))
+        return NONE
+    if name == "append":
+        parts.append(App("be", (I.resolve(run, args[0]), C(1)), "bytes"))   # one byte with that value
+        return NONE
+    if name == "clear":
+        del parts[:]
+        return NONE
+    if name in ("copy", "__bytes__"):
+        return concat(list(parts), "bytes") if name == "__bytes__" else run.alloc(HObj(BYTEARRAY, {"@parts": run.alloc(HList(list(parts)))}))
+    return str_method(I, run, concat(list(parts), "bytes"), name, args, kwargs, node)
 
 
 def _b_enumerate(I, run, args, kwargs, node):
@@ -1721,6 +1815,7 @@ def _b_object(I, run, args, kwargs, node):
 
 
 BUILTINS = {
+    "bytearray": _b_bytearray,
     "object": _b_object,
     "divmod": _b_divmod,
     "format": _b_format,
